@@ -166,6 +166,44 @@ func c17TypeTables(r *core.Run) {
 				if !ok {
 					return true
 				}
+				// a same-package helper that does the parsing with a bit size it is handed
+				if id, isID := call.Fun.(*ast.Ident); isID {
+					if o := core.Callee(scan.Pkg, call); o != nil {
+						if h := p.ByObj[o]; h != nil && h.Decl != nil && h.Decl.Body != nil && h.Pkg == scan.Pkg {
+							core.WalkCalls(h.Decl.Body, func(c2 *ast.CallExpr, _ *ast.FuncLit) {
+								s2, ok2 := c2.Fun.(*ast.SelectorExpr)
+								if !ok2 || !strings.HasPrefix(s2.Sel.Name, "Parse") {
+									return
+								}
+								if s2.Sel.Name != wantFn {
+									why = "parsed with " + s2.Sel.Name + " instead of " + wantFn
+									return
+								}
+								lastArg, isParam := c2.Args[len(c2.Args)-1].(*ast.Ident)
+								if !isParam {
+									return
+								}
+								idx := 0
+								for _, fl := range h.Decl.Type.Params.List {
+									for _, nm := range fl.Names {
+										if nm.Name == lastArg.Name && idx < len(call.Args) {
+											if k, ok3 := core.ConstInt(scan.Pkg, call.Args[idx]); ok3 {
+												if int(k) == b {
+													good = true
+												} else {
+													why = fmt.Sprintf("bit size %d instead of %d", k, b)
+												}
+											}
+										}
+										idx++
+									}
+								}
+							})
+						}
+					}
+					_ = id
+					return true
+				}
 				se, ok := call.Fun.(*ast.SelectorExpr)
 				if !ok || !strings.HasPrefix(se.Sel.Name, "Parse") {
 					return true
@@ -175,7 +213,7 @@ func c17TypeTables(r *core.Run) {
 					return true
 				}
 				last := call.Args[len(call.Args)-1]
-				if k, ok := core.ConstInt(scan.Pkg, last); ok {
+				if k, ok := core.ConstIntVia(scan.Pkg, cc, last); ok {
 					if int(k) == b {
 						good = true
 					} else {
